@@ -12,7 +12,7 @@ from .. import sim
 from ..common import V, samples_of, seed_offset
 from ..refmodels import fourier
 
-RT_TOL = 1e-3
+RT_TOL = 1e-6  # correct code recovers the generating parameters to ~1e-13 on noise-free data
 
 
 @functools.lru_cache(maxsize=None)
@@ -65,6 +65,14 @@ def eval_scaling(case):
     expl = np.asarray(fc.forecast_cum(t, M, tau), dtype=float)
     if not np.array_equal(expl, got):
         viol.append(V("explicit-arguments-win", "explicit M, tau are overridden by fitted M_/tau_", case=case))
+    # partially explicit arguments: the explicit one wins, the other one comes from the fit
+    only_M = np.asarray(fc.forecast_cum(t, M), dtype=float)          # tau_ = 0.5 tau
+    only_tau = np.asarray(fc.forecast_cum(t, tau=tau), dtype=float)  # M_ = 7 M
+    w_M = M * np.asarray(rf(t / (0.5 * tau)), dtype=float)
+    w_tau = 7.0 * M * np.asarray(rf(t / tau), dtype=float)
+    if not (np.all(np.abs(only_M - w_M) <= 1e-12 * np.abs(w_M).max()) and np.all(np.abs(only_tau - w_tau) <= 1e-12 * np.abs(w_tau).max())):
+        viol.append(V("partially-explicit-arguments", "forecast_cum(t, M) / forecast_cum(t, tau=tau) do not combine the "
+                      "explicit argument with the fitted value of the other one", case=case))
     fc.M_, fc.tau_ = M, tau
     dflt = np.asarray(fc.forecast_cum(t), dtype=float)
     if not np.array_equal(dflt, got):
@@ -191,11 +199,11 @@ def evaluate(case):
 def cases(tier, seed):
     thorough = tier == "thorough"
     curves = ["analytic", "ideal", "gas"]
-    Ms = [1e-3, 1e-2, 1.0, 300.0, 1e6]
+    Ms = [1e-9, 1e-6, 1e-3, 1e-2, 1.0, 300.0, 1e6, 1e12]  # what matters to the optimiser is M relative to tau
     taus = [1e-2, 3.0, 1e4]
     if seed:
         o = seed_offset(seed)
-        Ms.append(float(f"{10 ** (-3 + 9 * o):.4g}"))
+        Ms.append(float(f"{10 ** (-9 + 21 * o):.4g}"))
         taus.append(float(f"{10 ** (-2 + 6 * ((o * 3) % 1)):.4g}"))
     out = [{"kind": "scaling", "curve": c, "M": M, "tau": tau, "scale": s}
            for c, M, tau, s in itertools.product(curves, Ms, taus, [1 / 7, 3.0, 1e3])]
@@ -212,7 +220,8 @@ def cases(tier, seed):
     for c, b in itertools.product(curves, ["default", "fractional", "finite-truth-below", "fractional-outside"]):  # integer-typed data
         out.append({"kind": "roundtrip", "curve": c, "M": 5000.0, "tau": 365.25, "end": 3.0, "n": 200, "bounds": b,
                     "dtype": "int"})
-    for Mb, Tb in itertools.product([(0.0, np.inf), (2.0, 50.0), (5.0, np.inf)], [(1e-10, np.inf), (0.5, 4.0), (3.0, np.inf)]):
+    for Mb, Tb in itertools.product([(0.0, np.inf), (2.0, 50.0), (5.0, np.inf), (-10.0, 10.0), (-40.0, -2.0), (0.0, 8.0)],
+                                    [(1e-10, np.inf), (0.5, 4.0), (3.0, np.inf), (-1.0, 6.0)]):
         for gM, gT in itertools.product(["below", "inside", "above", "inf"], repeat=2):
             out.append({"kind": "guess", "M": list(Mb), "tau": list(Tb), "gM": gM, "gT": gT})
     good = [1.0, 2.0]
